@@ -381,7 +381,10 @@ def run(tier, replay_file=None):
     #      exactly as the router delivered them (from_map.rs from MIR, as in C09) - in particular never turned into '.', '..' or ''
     from props import c09
     n0 = len(chk.obligations)
-    c09.part_from_map(chk, ex)
+    try:
+        c09.part_from_map(chk, ex)
+    except Unsupported as e:
+        ex.unsupported_paths.append(f'part C (from_map): {e}')       # fail closed unless a replayed violation was found elsewhere
     chk.extra['from_map_obligations'] = len(chk.obligations) - n0
     if incon:
         rc = chk.finish('inconclusive run')
